@@ -587,12 +587,12 @@ class CrashMachine(Machine):
     level = "fault_enumeration"
     runs = {"quick": 80, "thorough": 6000}
     budget = {"quick": 300.0}  # wall-clock cap of the exploration (default 150 s): 80 workloads take ~130-170 s
-    run_timeout = 300.0
+    run_timeout = 1200.0  # a safety net, not a speed test: a thorough workload forks ~10^4 incarnations (100 s idle, several times that on a loaded host)
     rule = (
         "one run = one seeded workload (parallelise with a logging function, or scan.time_course / scan.steady_state / scan.protocol / mc.time_course; "
         "int/str/tuple/mixed keys; result sizes 0..70 kB; sequential or SimPool with W workers) and, for it, the crash "
         "histories R0 no cache -> R1 killed -> [R1' killed again] -> R2 -> R3 for EVERY line-level kill point in "
-        "mxlpy/parallel.py (exhaustive when <= 400 points, else stratified sample), sampled kill points in all mxlpy frames "
+        "mxlpy/parallel.py (exhaustive when <= 400 points in the quick and <= 800 in the thorough tier, else stratified sample), sampled kill points in all mxlpy frames "
         "for scan workloads, and byte-granular torn writes (offsets 0, 1, middle, flush boundaries +-1, last byte) of every "
         "result file, whole-process and single-worker death; an in-process multi-run session (caller mutates returned results, "
         "wipes and reuses the directory, an interruption inside the process then a rerun under the same pid); and, for pool "
@@ -617,7 +617,7 @@ class CrashMachine(Machine):
         r = rng("kills")
         n_lines = dry.get("lines", 0)
         kills: list[list[dict]] = []
-        cap = 400 if tier == "quick" else 1500
+        cap = 400 if tier == "quick" else 800
         exhaustive = False
         scope = wl.get("scope", "parallel")
         if n_lines <= cap:
